@@ -83,6 +83,7 @@ impl Read for SimStream {
             return Ok(n);
         }
         if self.yield_on_empty {
+            crate::trace::op(13);
             clock::advance(self.read_timeout_ns);
             shuttle::thread::yield_now();
             if let Some(n) = self.try_read(out) {
